@@ -315,6 +315,8 @@ Clause checklist (properties.jsonl C20 → theorems)
 * every receive re-arms the peer timer with 1.2 × the interval in force                      : C20_arming
 * quantifier: every logged-on state (normal, recovering, pending, both), both roles, every cfg : ∀ s with `C20Active` / `C20Pending` / `curResend`; ∀ cfg in `s.cfg`
 * timers: the model observes `armPeer d`; the heartbeat timer is re-armed by every wire write in the implementation
-  (tied by the correspondence check, not an observation of the model); real run loop / real timers: the wall-clock layer of ./check
+  (tied by the correspondence check, not an observation of the model); real run loop: family `loop` (Drv/Loop.lean: `step` of this file's model
+  run on the round's script = the allowed outcomes; Drv/LoopMon.lean) checks that an expiry of either timer of `session.run()` REACHES the loop
+  (busy in a callback / in the send to a stalled writer / idle) and has the consequences of `timeoutCore`; durations: arming theorems above only
 * `C20_timed` (DESIGN §5: timed semantics, gaps between outbound messages ≤ hb) is not stated: the model has no clock
 -/
